@@ -26,7 +26,7 @@ Match(r) == /\ ~r.obs.raised /\ exists' = PEx(r) /\ value' = PVal(r) /\ level' =
             /\ (r.act.op = "express" => obs'.config = Fn(r.obs.config))
 Tg(r) == r.act.g
 Clauses == {"Immutable", "HashFollowsValues", "RefusalsLogged", "ChangesLogged", "ParentUntouched", "ChildDiffers", "ExpressExact",
-            "RollbackRestores", "NoRaise"}
+            "RollbackRestores", "Independent", "NoRaise"}
 Holds(c, r) ==
   CASE c = "Immutable" -> \A g \in M!G, n \in Genes : (exists[g] /\ r.post.exists[g] /\ r.post.value[g][n] # value[g][n]) =>
                              \/ (r.act.op \in {"mutate", "rollback", "readd"} /\ Tg(r) = g /\ M!Auth(n, r.post.value[g][n]))
@@ -42,6 +42,8 @@ Holds(c, r) ==
     [] c = "ExpressExact" -> r.act.op = "express" => Fn(r.obs.config) = [n \in M!Expressed(Tg(r), SetOf(r.act.ctx)) |-> value[Tg(r)][n]]
     [] c = "RollbackRestores" -> (r.act.op = "rollback" /\ r.obs.ok) =>
                                 lastOld[Tg(r)][r.act.n] # NoVal /\ r.post.value[Tg(r)][r.act.n] = lastOld[Tg(r)][r.act.n]
+    [] c = "Independent" -> r.act.op # "replicate" => \A g \in M!G \ {Tg(r)} : (exists[g] /\ r.post.exists[g]) =>
+                                PVal(r)[g] = value[g] /\ PLev(r)[g] = level[g] /\ r.post.hash[g] = hashv[g]
     [] c = "NoRaise" -> ~r.obs.raised
 Conform(k) == LET r == E[k] IN DAct(r.act) /\ Match(r) /\ drift' = FALSE
 Resync(k) ==
